@@ -8,7 +8,7 @@ func init() {
 				"entry points: round trip at equal zooms for z in {1,2,3,5,12}, v in {0,3,25}; different output zooms with zoom difference <= 2 per axis on 1..2 IDs, double-report freedom through a symbolic probe cell",
 				"maxHeight == minHeight (plain vertical zoom) in the entry-point harnesses; the height-range (bit) form is C17",
 			},
-			Outside: []string{"encode kernel at zooms 17..31 (merged-loop query: solver unknown at 300 s; forked: > 1000 paths per zoom) — the decode kernel and the bijectivity of the reference cover 1..31", "lists longer than 2", "zoom differences above 2", "entry points at horizontal zooms above 12 (path count grows as zoom^2)"},
+			Outside: []string{"encode kernel at zooms 17..31 with all bits symbolic (merged-loop query: solver unknown at 300 s; forked: > 1000 paths per zoom): there only the 6 most significant bits of x and y are symbolic (zooms 17, 24, 31 quick; 17, 20, 24, 28, 30, 31 thorough) — the decode kernel and the bijectivity of the reference cover 1..31 fully", "lists longer than 2", "zoom differences above 2", "entry points at horizontal zooms above 12 (path count grows as zoom^2)"},
 		},
 		insts: func(tier string) []*Instance {
 			var is []*Instance
@@ -33,6 +33,15 @@ func init() {
 					in.MaxSeconds = 3000
 					is = append(is, in)
 				}
+			}
+			for _, z := range []int{17, 20, 24, 28, 30, 31} {
+				if tier == "quick" && z != 17 && z != 24 && z != 31 {
+					continue
+				}
+				in := mk("transform", "VerifC11EncodeHigh", cs("z", z, "sym", 6))
+				in.Timeout = 300000
+				in.Unwind = 40
+				is = append(is, in)
 			}
 			for _, z := range []int{1, 2, 3, 5, 12} {
 				for _, v := range []int{0, 3, 25} {
